@@ -4,6 +4,7 @@ import (
 	"encoding/json"
 	"fmt"
 	"os"
+	"runtime/debug"
 	"sort"
 	"strings"
 	"time"
@@ -1427,4 +1428,119 @@ func jsonRoundTrip(v interface{}) interface{} {
 	var out interface{}
 	json.Unmarshal(b, &out)
 	return out
+}
+
+// ---- document / criteria API without a store (no-panic property) ---------------------------------------
+
+var nastyPaths = []string{"", ".", "a.", ".a", "a..b", "n.a.z", "n.a", "_id", "_expiresAt", "\x00", "a b", "ü.é", "arr.0", "n"}
+
+type docAPIStruct struct {
+	A  int                    `clover:"a"`
+	S  string                 `clover:"s,omitempty"`
+	N  map[string]interface{} `clover:"n"`
+	T  *time.Time             `clover:"t"`
+	ID string                 `clover:"_id"`
+}
+
+func (e *Exec) stepDocAPI(op *Op) {
+	docs := op.docMaps()
+	if len(docs) == 0 {
+		return
+	}
+	m := docs[0]
+	var crit query.Criteria
+	if op.Q != nil && op.Q.Crit != nil {
+		crit = CritToClover(op.Q.Crit)
+	}
+	e.probe("doc-api")
+	calls := []func(){
+		func() {
+			d := document.NewDocumentOf(val.CloneMap(m))
+			for _, p := range nastyPaths {
+				_ = d.Has(p)
+				_ = d.Get(p)
+			}
+			_ = d.Fields(true)
+			_ = d.Fields(false)
+			_ = d.ToMap()
+			_ = d.AsMap()
+			_ = d.Copy()
+			_ = d.ObjectId()
+			_ = d.ExpiresAt()
+			_ = d.TTL()
+			_ = document.Validate(d)
+		},
+		func() {
+			d := document.NewDocumentOf(val.CloneMap(m))
+			for i, p := range nastyPaths {
+				d.Set(p, val.Clone(m[fmt.Sprint(i)]))
+				d.Set(p, int8(i))
+				d.Set(p, []string{"x"})
+				d.Set(p, map[string]interface{}{"k": []int{1, 2}})
+				d.Set(p, struct{ X, y int }{1, 2})
+				d.Set(p, make(chan int)) // unsupported: must leave the document unchanged, not panic
+				_ = d.Get(p)
+			}
+			d.SetAll(map[string]interface{}{"a.b": 1, "a": 2, "": 3})
+			d.SetExpiresAt(time.Unix(0, 0))
+			_ = d.TTL()
+		},
+		func() {
+			d := document.NewDocumentOf(val.CloneMap(m))
+			var asMap map[string]interface{}
+			_ = d.Unmarshal(&asMap)
+			var st docAPIStruct
+			_ = d.Unmarshal(&st)
+			var n int
+			_ = d.Unmarshal(&n)
+			_ = document.NewDocumentOf(st)
+			_ = document.NewDocumentOf(&st)
+			_ = document.NewDocumentOf(5)
+			_ = document.NewDocumentOf("x")
+			_ = document.NewDocumentOf([]int{1})
+			_ = document.NewDocumentOf(map[int]int{1: 2})
+		},
+		func() {
+			d := document.NewDocumentOf(val.CloneMap(m))
+			if b, err := document.Encode(d); err == nil {
+				_, _ = document.Decode(b)
+				if len(b) > 2 {
+					_, _ = document.Decode(b[:len(b)/2]) // truncated record: an error, not a panic
+				}
+			}
+			_, _ = document.Decode(nil)
+			_, _ = document.Decode([]byte{0xc1, 0xff, 0x00})
+		},
+		func() {
+			if crit == nil {
+				return
+			}
+			d := document.NewDocumentOf(val.CloneMap(m))
+			_ = crit.Satisfy(d)
+			_ = crit.Not().Satisfy(d)
+			_ = crit.And(crit.Not()).Satisfy(d)
+			_ = crit.Or(crit).Satisfy(document.NewDocument())
+			_ = query.Field("").Like("(").Satisfy(d) // invalid pattern
+			_ = query.Field("a").In().Satisfy(d)
+			_ = query.Field("a").Contains().Satisfy(d)
+			_ = query.Field("a").Gt(query.Field("")).Satisfy(d)
+			_ = query.Field("a").Eq("$").Satisfy(d)
+			_ = query.Field("a").Lt(make(chan int)).Satisfy(d) // literal that cannot be normalised
+			_ = query.Field("a").Eq(struct{ X int }{1}).Satisfy(d)
+		},
+	}
+	for i, c := range calls {
+		e.checked("public-call")
+		func() {
+			defer func() {
+				if r := recover(); r != nil {
+					e.fail([]string{"C20"}, "C20/panic", fmt.Sprintf("document/criteria API call group %d panicked on %s: %v\n%s", i, val.String(m), r, trimStack(debug.Stack())), map[string]string{"panic": firstLine(fmt.Sprint(r)), "docapi": fmt.Sprint(i)})
+				}
+			}()
+			c()
+		}()
+		if e.V != nil {
+			return
+		}
+	}
 }
